@@ -442,6 +442,123 @@ def real_mechanism_cases():
     return cases
 
 
+class CookieScenario(explore.Scenario):
+    """Several connections running DBUS_COOKIE_SHA1 exchanges against one
+    keyring, steps interleaved in every order: a conforming client with the
+    right cookie is accepted whatever the others do, and the keyring holds
+    exactly the cookies of the exchanges still waiting for a response."""
+    name = 'C06/cookie-concurrency'
+
+    def build(self):
+        import getpass
+        w = W()
+        w.keyring = tempfile.mkdtemp(prefix='mcx-keyring-')
+        os.chmod(w.keyring, 0o700)
+        w.user = binascii.hexlify(getpass.getuser().encode())
+        w.convs = [Conv(w.keyring, True)
+                   for _ in range(self.params['connections'])]
+        w.state = ['idle'] * len(w.convs)
+        w.challenge = [None] * len(w.convs)
+        w.rounds = [0] * len(w.convs)
+        return w
+
+    def close(self, w):
+        for c in w.convs:
+            c.close()
+        shutil.rmtree(w.keyring, ignore_errors=True)
+
+    def enabled(self, w):
+        evs = []
+        for i, st in enumerate(w.state):
+            if st == 'idle' and w.rounds[i] < self.params['rounds']:
+                evs.append(('auth', i))
+            elif st == 'data':
+                evs += [('respond', i), ('wrong', i), ('cancel', i)]
+            elif st == 'ok':
+                evs += [('begin', i), ('cancel', i)]
+        return evs
+
+    def apply(self, w, ev):
+        kind, i = ev
+        c = w.convs[i]
+        viol = []
+        tag = '%s/others=%s' % (kind, '+'.join(sorted(
+            s for j, s in enumerate(w.state) if j != i)))
+        if kind == 'auth':
+            w.rounds[i] += 1
+            out = c.send(b'AUTH DBUS_COOKIE_SHA1 ' + w.user)
+            if len(out) == 1 and out[0].startswith(b'DATA '):
+                w.state[i] = 'data'
+                w.challenge[i] = out[0]
+            else:
+                viol.append(('%s/cookie/no-challenge/%s' % (PROP, tag),
+                             'AUTH DBUS_COOKIE_SHA1 was answered %r' % (out,)))
+        elif kind in ('respond', 'wrong'):
+            try:
+                reply = _cookie_reply(w.keyring, w.challenge[i],
+                                      'hash' if kind == 'wrong' else None)
+            except Exception as e:
+                return [('%s/cookie/lookup-failed/%s' % (PROP, tag),
+                         'a conforming client cannot find the cookie the '
+                         'challenge %r names: %r' % (w.challenge[i], e))]
+            out = c.send(b'DATA ' + binascii.hexlify(reply))
+            ok = len(out) == 1 and out[0] == b'OK ' + fakes.GUID
+            rej = len(out) == 1 and out[0].startswith(b'REJECTED')
+            if kind == 'respond' and not ok:
+                viol.append(('%s/cookie/right-response-refused/%s'
+                             % (PROP, tag),
+                             'connection %d answered its challenge with the '
+                             'right cookie (other connections: %r) and got %r'
+                             % (i, w.state, out)))
+            if kind == 'wrong' and not rej:
+                viol.append(('%s/cookie/wrong-response-accepted/%s'
+                             % (PROP, tag),
+                             'a wrong response was answered %r' % (out,)))
+            w.state[i] = 'ok' if ok else 'idle'
+        elif kind == 'cancel':
+            out = c.send(b'CANCEL')
+            if not (len(out) == 1 and out[0].startswith(b'REJECTED')):
+                viol.append(('%s/cookie/cancel/%s' % (PROP, tag),
+                             'CANCEL was answered %r' % (out,)))
+            w.state[i] = 'idle'
+        elif kind == 'begin':
+            c.send(b'BEGIN')
+            if c.p.auth_calls != 1:
+                viol.append(('%s/cookie/begin/%s' % (PROP, tag),
+                             'BEGIN after OK did not authenticate'))
+            w.state[i] = 'authed'
+        if c.exc is not None:
+            viol.append(('%s/cookie/raises-%s/%s'
+                         % (PROP, type(c.exc).__name__, tag),
+                         '%r on connection %d (states %r) raised %r'
+                         % (kind, i, w.state, c.exc)))
+            c.exc = None
+        # the keyring: one cookie per exchange still waiting, ids distinct
+        left = _keyring_left(w.keyring)
+        ids = [l.split()[0] for l in left]
+        want = sum(1 for s in w.state if s == 'data')
+        if len(ids) != len(set(ids)):
+            viol.append(('%s/cookie/duplicate-id/%s' % (PROP, tag),
+                         'the keyring holds cookie ids %r' % (ids,)))
+        elif len(ids) != want:
+            viol.append(('%s/cookie/keyring-count/%s' % (PROP, tag),
+                         'after %r on connection %d the keyring holds %d '
+                         'cookie(s), %d exchange(s) are waiting for a '
+                         'response (states %r)' % (kind, i, len(ids), want,
+                                                   w.state)))
+        return viol
+
+    def canon(self, w):
+        # the keyring content is state too: which ids are taken decides what
+        # the next exchange is given
+        ids = tuple(sorted(l.split()[0] for l in _keyring_left(w.keyring)))
+        chal = tuple((c or b'').split(b' ')[-1][:0] for c in w.challenge)
+        return (tuple(w.state), tuple(w.rounds), ids)
+
+    def nontrivial(self, hist):
+        return len({e[1] for e in hist}) > 1
+
+
 def _task_real(_):
     res = core.Result()
     for name, creds, script, must in real_mechanism_cases():
@@ -604,7 +721,11 @@ def run(ctx):
         'position, rejection count, digest of the authenticator). part 2: '
         'the real EXTERNAL / DBUS_COOKIE_SHA1 / ANONYMOUS mechanisms against '
         'a conforming reference client with right, wrong (7 shapes) and '
-        'cancelled exchanges, keyring in a scratch directory. part 3: first '
+        'cancelled exchanges, keyring in a scratch directory; 2-3 '
+        'connections running cookie exchanges against one keyring with their '
+        'steps (AUTH, right / wrong response, CANCEL, BEGIN) interleaved in '
+        'every order: the right response is always accepted and the keyring '
+        'holds exactly one distinct cookie per waiting exchange. part 3: first '
         'byte, the 16384/16385 byte line limit, and every single cut%s of '
         'every %d-line conversation gives the unsplit transcript'
         % (len(LINES), len(MALFORMED), len(SCRIPTS),
@@ -618,6 +739,16 @@ def run(ctx):
         explore.explore(ctx, AuthScenario,
                         {'script': list(script), 'malformed': True},
                         max_depth=30, label='script ' + '-'.join(script))
+    explore.explore(ctx, CookieScenario,
+                    {'connections': 2 if ctx.quick else 3,
+                     'rounds': 2 if ctx.quick else 2},
+                    max_depth=14 if ctx.quick else 18,
+                    label='cookie exchanges on a shared keyring',
+                    max_states=50000)
+    if ctx.quick:
+        explore.explore(ctx, CookieScenario, {'connections': 3, 'rounds': 1},
+                        max_depth=10,
+                        label='3 cookie exchanges on a shared keyring')
     ctx.map(_task_real, [0])
     ctx.map(_task_framing, [ctx.quick])
     ctx.bounds = {'scripts': len(SCRIPTS), 'lines': len(LINES)}
